@@ -282,6 +282,20 @@ fn primitive_value_eq(a: &Primitive, b: &Primitive) -> bool {
     }
 }
 
+/// The kind both operands of a set function must have: the kind of the first
+/// one when it is a collection, a collection of anything otherwise (so that
+/// two equal arguments that are no collections are not a match).
+fn set_operand_kind(
+    args: &[PreExp],
+    context: &TypeCheckerContext,
+    fn_context: &FunctionContext,
+) -> PrimitiveKind {
+    match args.first().map(|a| a.get_type(context, fn_context)) {
+        Some(kind @ PrimitiveKind::Iterable(_)) => kind,
+        _ => PrimitiveKind::Iterable(Box::new(PrimitiveKind::Any)),
+    }
+}
+
 fn contains_value(haystack: &[Primitive], needle: &Primitive) -> bool {
     haystack.iter().any(|p| primitive_value_eq(p, needle))
 }
@@ -315,10 +329,7 @@ impl RoocFunction for ArrayDifference {
         context: &TypeCheckerContext,
         fn_context: &FunctionContext,
     ) -> Vec<(String, PrimitiveKind)> {
-        let first = args
-            .first()
-            .map(|a| a.get_type(context, fn_context))
-            .unwrap_or(PrimitiveKind::Iterable(Box::new(PrimitiveKind::Any)));
+        let first = set_operand_kind(args, context, fn_context);
         vec![
             ("from".to_string(), first.clone()),
             ("other".to_string(), first),
@@ -331,9 +342,7 @@ impl RoocFunction for ArrayDifference {
         context: &TypeCheckerContext,
         fn_context: &FunctionContext,
     ) -> PrimitiveKind {
-        args.first()
-            .map(|a| a.get_type(context, fn_context))
-            .unwrap_or(PrimitiveKind::Iterable(Box::new(PrimitiveKind::Any)))
+        set_operand_kind(args, context, fn_context)
     }
 
     fn function_name(&self) -> String {
@@ -371,10 +380,7 @@ impl RoocFunction for ArrayUnion {
         context: &TypeCheckerContext,
         fn_context: &FunctionContext,
     ) -> Vec<(String, PrimitiveKind)> {
-        let first = args
-            .first()
-            .map(|a| a.get_type(context, fn_context))
-            .unwrap_or(PrimitiveKind::Iterable(Box::new(PrimitiveKind::Any)));
+        let first = set_operand_kind(args, context, fn_context);
         vec![
             ("first".to_string(), first.clone()),
             ("second".to_string(), first),
@@ -387,9 +393,7 @@ impl RoocFunction for ArrayUnion {
         context: &TypeCheckerContext,
         fn_context: &FunctionContext,
     ) -> PrimitiveKind {
-        args.first()
-            .map(|a| a.get_type(context, fn_context))
-            .unwrap_or(PrimitiveKind::Iterable(Box::new(PrimitiveKind::Any)))
+        set_operand_kind(args, context, fn_context)
     }
 
     fn function_name(&self) -> String {
@@ -426,10 +430,7 @@ impl RoocFunction for ArrayIntersection {
         context: &TypeCheckerContext,
         fn_context: &FunctionContext,
     ) -> Vec<(String, PrimitiveKind)> {
-        let first = args
-            .first()
-            .map(|a| a.get_type(context, fn_context))
-            .unwrap_or(PrimitiveKind::Iterable(Box::new(PrimitiveKind::Any)));
+        let first = set_operand_kind(args, context, fn_context);
         vec![
             ("first".to_string(), first.clone()),
             ("second".to_string(), first),
@@ -442,9 +443,7 @@ impl RoocFunction for ArrayIntersection {
         context: &TypeCheckerContext,
         fn_context: &FunctionContext,
     ) -> PrimitiveKind {
-        args.first()
-            .map(|a| a.get_type(context, fn_context))
-            .unwrap_or(PrimitiveKind::Iterable(Box::new(PrimitiveKind::Any)))
+        set_operand_kind(args, context, fn_context)
     }
 
     fn function_name(&self) -> String {
